@@ -135,8 +135,9 @@ class Ctx:
         nob = len(self.obligations)
         ndis = sum(1 for _, ok in self.obligations if ok)
         coverage = collections.OrderedDict()
-        coverage['obligations'] = nob + 1
-        coverage['discharged'] = ndis + (0 if any(b['kind'] == 'correspondence' for b in self.broken) else 1)
+        # obligations: the property's theorems + 'the model builds and extracts' + 'the correspondence holds on every generated input'
+        coverage['obligations'] = nob + 2
+        coverage['discharged'] = ndis + 1 + (0 if any(b['kind'] == 'correspondence' for b in self.broken) else 1)
         coverage['checker_cmd'] = 'cd coq && make (coq_makefile, full .vo) && coqc Props/%s.v ; correspondence: harness (cargo) + extracted model (ocamlfind ocamlopt)' % prop
         coverage['trusted_base'] = TRUSTED_BASE
         coverage['theorems'] = [t for t, _ in self.obligations]
